@@ -51,12 +51,13 @@ ASSUMPTIONS = [
     'property values used are valid CSS values but not valid for every property (top: red) - validation only logs and is not judged here',
 ]
 FLOORS = {
-    'quick': {'states': 2000, 'transitions': 100000, 'validated': 100000, 'outcomes': 2000, 'counter:table.rows': 250, 'counter:vars.states_expanded': 40},
-    'thorough': {'states': 20000, 'transitions': 1000000, 'validated': 1000000, 'outcomes': 20000, 'counter:table.rows': 250, 'counter:vars.states_expanded': 40},
+    'quick': {'states': 20000, 'transitions': 200000, 'validated': 200000, 'outcomes': 20000, 'counter:table.rows': 130, 'counter:style.states_expanded': 2000, 'counter:vars.states_expanded': 20},
+    'thorough': {'states': 200000, 'transitions': 2000000, 'validated': 2000000, 'outcomes': 200000, 'counter:table.rows': 130, 'counter:style.states_expanded': 20000, 'counter:vars.states_expanded': 20},
 }
 
 NAMES = ['color', 'COLOR', 'c\\olor', 'top']
-PROBE_NAMES = NAMES + ['TOP', 'left']  # lookups only
+PROBE_NAMES = NAMES + ['left']  # lookups only ('left' is never set)
+ITEM_NAMES = ['COLOR', 'top']  # style[n]
 STYLE_TEXTS = [
     ('', []),
     ('color:red;COLOR:blue!important;top:1px', [('p', 'color', 'red', ''), ('p', 'color', 'blue', 'important'), ('p', 'top', '1px', '')]),
@@ -81,17 +82,19 @@ VARS_TEXTS = [
 VARS_SEEDS = [0, 1]
 
 # (block name) -> config; every block is an independent search space (the block name is part of the state key)
+#   L  = cap on property entries of an expandable state, Lc = cap for states that also hold a comment
 CONFIGS = {
     'quick': {
-        'style': {'L': 3, 'values': ['red', 'blue'], 'prios': ['', 'important', '!IMPORTANT'], 'full_product': False},
+        'style': {'L': 3, 'Lc': 2, 'values': ['red', 'blue'], 'prios': ['', 'important', '!important', '!IMPORTANT'], 'full_product': False},
         'vars': {'L': 3},
     },
     'thorough': {
-        'style': {'L': 4, 'values': ['red', 'blue'], 'prios': ['', 'important', '!IMPORTANT'], 'full_product': False},
-        'style-wide': {'L': 3, 'values': ['red', 'blue', '1px'], 'prios': ['', 'important', '!important', '!IMPORTANT'], 'full_product': True},
+        'style': {'L': 4, 'Lc': 3, 'values': ['red', 'blue'], 'prios': ['', 'important', '!important', '!IMPORTANT'], 'full_product': False},
+        'style-wide': {'L': 3, 'Lc': 2, 'values': ['red', 'blue', '1px'], 'prios': ['', 'important', '!important', '!IMPORTANT'], 'full_product': True},
         'vars': {'L': 3},
     },
 }
+MODES = [(True, True), (False, True), (True, False), (False, False)]  # (normalize, replace)
 
 
 def _cfg(tier, block):
@@ -110,32 +113,41 @@ def style_ops(tier, block):
     V, P = cfg['values'], cfg['prios']
     ops = []
     for n in NAMES:
-        for v in V:
-            for p in P:
-                if cfg['full_product']:
-                    modes = [(True, True), (False, True), (True, False), (False, False)]
-                else:
-                    # pruned product: every (normalize, replace) mode with the plain and one upper-case priority,
-                    # the remaining priority spellings with the default mode only
-                    modes = [(True, True), (False, True), (True, False), (False, False)] if p in ('', '!IMPORTANT') else [(True, True)]
-                for nz, rp in modes:
-                    ops.append(['set', n, v, p, nz, rp])
+        if cfg['full_product']:
+            for v in V:
+                for p in P:
+                    for nz, rp in MODES:
+                        ops.append(['set', n, v, p, nz, rp])
+            for p in ('', '!important'):
+                for nz, rp in MODES[:3]:
+                    ops.append(['setobj', n, V[-1], p, nz, rp])
+            for v in V:
+                ops.append(['item', n, v])
+        else:
+            # pruned product: every (normalize, replace) mode x {'' , '!IMPORTANT'} with the value alternating so that every
+            # (literal name, value, priority) entry can be appended and every update changes the value in half of the states;
+            # the other priority spellings with the default mode
+            for i, (nz, rp) in enumerate(MODES):
+                ops.append(['set', n, V[i % 2], '', nz, rp])
+                ops.append(['set', n, V[(i + 1) % 2], '!IMPORTANT', nz, rp])
+            ops.append(['set', n, V[0], 'important', True, True])
+            ops.append(['set', n, V[1], '!important', True, True])
+            ops.append(['setobj', n, V[1], '', True, True])
+            ops.append(['setobj', n, V[0], '!important', False, True])
+            ops.append(['setobj', n, V[1], '', True, False])
+            ops.append(['item', n, V[1]])
         ops.append(['set', n, '', '', True, True])
         ops.append(['set', n, None, 'important', False, True])
-        for p in ('', '!important'):
-            for nz, rp in ((True, True), (False, True), (True, False)):
-                ops.append(['setobj', n, V[-1], p, nz, rp])
         ops.append(['rm', n, True])
         ops.append(['rm', n, False])
-        for v in V:
-            ops.append(['item', n, v])
         ops.append(['item', n, None])
         ops.append(['item2', n, V[0], 'important'])
         ops.append(['item2', n, V[-1], '!IMPORTANT'])
-        ops.append(['item2', n, V[0], None])
+        if cfg['full_product']:
+            ops.append(['item2', n, V[0], None])
         ops.append(['del', n])
     for dom in ('color', 'top'):
-        for v in V + ['', None]:
+        for v in (V if cfg['full_product'] else V[:1]) + ['', None]:
             ops.append(['attr', dom, v])
         ops.append(['delattr', dom])
     ops.append(['attr', 'colour', V[0]])  # unknown attribute: rejected
@@ -188,26 +200,44 @@ def bounds(tier):
 # views of the real objects (public accessors only)
 
 
+class Snap:
+    """one reading of a style block through public accessors: every child once (Property.value serialises: read it once)"""
+
+    def __init__(self, st, text=True):
+        self.items = []  # ('p', literal name, value, priority) | ('c', text)
+        self.fine = []  # + normalised name
+        self.by_id = {}
+        self.litprio_ok = True
+        for v in st.children():
+            if isinstance(v, css.Property):
+                t = ('p', v.literalname, v.value, v.priority)
+                self.by_id[id(v)] = t[1:]
+                self.fine.append((t, v.name))
+                if (v.literalpriority or '').lower() != v.priority:
+                    self.litprio_ok = False
+            elif isinstance(v, css.CSSComment):
+                t = ('c', v.cssText)
+                self.fine.append((t, None))
+            else:
+                t = ('?', getattr(v, 'cssText', repr(v)))
+                self.fine.append((t, type(v).__name__))
+            self.items.append(t)
+        self.text = st.cssText if text else None
+        self.n_entries = len(self.by_id)
+        self.has_comment = len(self.items) > self.n_entries
+
+    def triple(self, p):
+        if p is None:
+            return None
+        t = self.by_id.get(id(p))
+        return t if t is not None else (p.literalname, p.value, p.priority)
+
+    def key(self, block):
+        return h64(jdump([block, self.fine, self.text]))
+
+
 def style_items(st):
-    out = []
-    for v in st.children():
-        if isinstance(v, css.Property):
-            out.append(('p', v.literalname, v.value, v.priority))
-        elif isinstance(v, css.CSSComment):
-            out.append(('c', v.cssText))
-        else:
-            out.append(('?', getattr(v, 'cssText', repr(v))))
-    return out
-
-
-def style_key(block, st):
-    fine = []
-    for v in st.children():
-        if isinstance(v, css.Property):
-            fine.append((v.literalname, v.name, v.value, v.priority, v.literalpriority, v.propertyValue.cssText))
-        else:
-            fine.append((type(v).__name__, getattr(v, 'cssText', None)))
-    return h64(jdump([block, fine, st.cssText]))
+    return Snap(st, text=False).items
 
 
 def vars_api(vd):
@@ -269,13 +299,14 @@ def parse_vars_text(text):
 
 
 def nameclass(n):
+    """how the spelling of a name argument differs from the stored form: the essential ingredient of a matching failure"""
     if n is None:
         return 'none'
-    if '\\' in n:
-        return 'hex-escaped' if n[n.index('\\') + 1: n.index('\\') + 2] in '0123456789abcdefABCDEF' else 'escaped'
+    if '\\' in n and n[n.index('\\') + 1: n.index('\\') + 2] in tuple('0123456789abcdefABCDEF'):
+        return 'hex-escaped'
     if n != n.lower():
         return 'upper'
-    return 'plain'
+    return 'as-stored'
 
 
 def opkind(op):
@@ -290,6 +321,30 @@ def opkind(op):
         'item': '__setitem__', 'item2': '__setitem__(tuple)', 'del': '__delitem__', 'attr': '__setattr__', 'delattr': '__delattr__',
         'text': 'cssText=', 'vset': 'setVariable', 'vitem': '__setitem__', 'vrm': 'removeVariable', 'vdel': '__delitem__', 'vtext': 'cssText=', 'seed': 'constructor',
     }[k]
+
+
+def equivalent(op):
+    """the plain method call a convenience form of an operation is documented to stand for (None: op is plain already).
+    A violation seen through the convenience form is reported under the plain call's signature iff the plain call shows the
+    same signature from the same state (one-step counterfactual); otherwise it is the convenience form's own finding."""
+    k = op[0]
+    if k == 'setobj':
+        return ['set', op[1], op[2], op[3], op[4], op[5]]
+    if k == 'item':
+        return ['set', op[1], op[2], None, True, True]
+    if k == 'item2':
+        return ['set', op[1], op[2], op[3], True, True]
+    if k == 'del':
+        return ['rm', op[1], True]
+    if k == 'attr' and op[1] in KNOWN_DOM:
+        return ['set', dom_to_css(op[1]), op[2], '', True, True]
+    if k == 'delattr' and op[1] in KNOWN_DOM:
+        return ['rm', dom_to_css(op[1]), True]
+    if k == 'vitem':
+        return ['vset', op[1], op[2]]
+    if k == 'vdel':
+        return ['vrm', op[1]]
+    return None
 
 
 def dom_to_css(dom):
@@ -440,7 +495,7 @@ def rebuild(history, res=None):
     for op in history[1:]:
         try:
             apply_real(real, op)
-        except (xml.dom.DOMException, AttributeError, TypeError):
+        except Exception:
             guard.pristine()
         try:
             apply_model(model, op)
@@ -466,19 +521,28 @@ def rebuild(history, res=None):
 # comparison of every observer
 
 
+MATCHING_FAILURES = ('no-effect', 'appended-instead-of-updated')
+
+
 def _entries_symptom(src, exp, obs):
-    if obs == src and exp != src:
+    """class of the difference between expected and observed entry lists (src = the list before the operation)"""
+    if src is not None and obs == src and len(exp) != len(src):
         return 'no-effect'
-    if len(obs) == len(exp) + 1 and obs[:-1] == src:
+    if src is not None and len(obs) == len(exp) + 1 and obs[:-1] == src:
         return 'appended-instead-of-updated'
     if len(obs) > len(exp):
         return 'extra-entries'
     if len(obs) < len(exp):
         return 'missing-entries'
+    if src is not None and len(src) == len(obs):
+        ch_exp = [i for i in range(len(src)) if exp[i] != src[i]]
+        ch_obs = [i for i in range(len(src)) if obs[i] != src[i]]
+        if ch_exp != ch_obs:
+            return 'wrong-entry-modified'
     fields = set()
     for a, b in zip(exp, obs):
         if a != b:
-            if a[0] != b[0]:
+            if len(a) != len(b) or a[0] != b[0]:
                 fields.add('kind')
             else:
                 for i, f in enumerate(('kind', 'name', 'value', 'priority')[: len(a)]):
@@ -487,25 +551,26 @@ def _entries_symptom(src, exp, obs):
     return 'entries-differ:' + '+'.join(sorted(fields))
 
 
-def _triple(p):
-    return None if p is None else (p.literalname, p.value, p.priority)
+def _sig(ok, symptom, nc):
+    return f'{ok}|{symptom}|name={nc}' if symptom in MATCHING_FAILURES else f'{ok}|{symptom}'
 
 
-def compare_style(res, st, m, case, ok, nc, src_items):
-    """compare every observer; returns True when the state (item list) agrees with the model"""
-    V = res.violation
+def compare_style(res, V, st, sn, m, case, ok, nc, src_items):
+    """compare every observer with the model; sn = Snap(st); V records a violation. True when the item list agrees"""
     size = case['_size']
     c = {k: v for k, v in case.items() if k != '_size'}
+    T = sn.triple
     exp_items = [tuple(i) for i in m.items]
-    obs_items = style_items(st)
+    obs_items = sn.items
     res.clauses['C10.entries'] += 1
     if obs_items != exp_items:
-        V('C10.entries', f'{ok}|{_entries_symptom(src_items, exp_items, obs_items)}|name={nc}', c, exp_items, obs_items, size=size)
+        V('C10.entries', _sig(ok, _entries_symptom(src_items, exp_items, obs_items), nc), c, exp_items, obs_items, size=size)
         return False
-    # getProperties(all=True): triples and normalised names
-    res.clauses['C10.entries.all'] += 1
+    if not sn.litprio_ok:
+        V('C10.entries', f'{ok}|priority-is-not-the-normalised-literal-priority', c, None, None, size=size)
+    # getProperties(all=True): the same objects in the same order, normalised names
     allp = st.getProperties(all=True)
-    got = [(p.literalname, p.value, p.priority) for p in allp]
+    got = [T(p) for p in allp]
     if got != m.triples():
         V('C10.entries', 'getProperties(all=True)|differs-from-children', c, m.triples(), got, size=size)
     gotn = [p.name for p in allp]
@@ -518,25 +583,26 @@ def compare_style(res, st, m, case, ok, nc, src_items):
             res.clauses['C10.lookup'] += 1
             e = m.effective(n, nz)
             exp = (tuple(e[1:]) if e else None, e[2] if e else '', e[3] if e else '')
-            obs = (_triple(st.getProperty(n, nz)), st.getPropertyValue(n, nz), st.getPropertyPriority(n, nz))
+            obs = (T(st.getProperty(n, nz)), st.getPropertyValue(n, nz), st.getPropertyPriority(n, nz))
             if obs != exp:
                 if exp[0] is not None and obs[0] is None:
                     sym = 'absent-but-present'
                 elif exp[0] is None:
                     sym = 'present-but-absent'
-                elif (obs[0], obs[1], obs[2]) != (obs[0], obs[0][1] if obs[0] else '', obs[0][2] if obs[0] else ''):
+                elif (obs[1], obs[2]) != ((obs[0][1], obs[0][2]) if obs[0] else ('', '')):
                     sym = 'getters-disagree'
                 else:
                     sym = 'not-the-effective-entry'
-                V('C10.lookup', f'getProperty*(normalize={nz})|{sym}|name={nameclass(n)}', dict(c, lookup=n), list(exp), list(obs), size=size)
+                sig = f'getProperty*(normalize={nz})|{sym}' + (f'|name={nameclass(n)}' if sym in ('absent-but-present', 'present-but-absent') else '')
+                V('C10.lookup', sig, dict(c, lookup=n), list(exp), list(obs), size=size)
+        exp = [tuple(e[1:]) for e in m._candidates(n, True)]
+        obs = [T(p) for p in st.getProperties(n, all=True)]
+        if obs != exp:
+            V('C10.lookup', f'getProperties(name,all=True)|name={nameclass(n)}', dict(c, lookup=n), exp, obs, size=size)
+    for n in ITEM_NAMES:
         res.clauses['C10.lookup.item'] += 1
         if st[n] != m.value(n):
             V('C10.lookup', f'__getitem__|name={nameclass(n)}', dict(c, lookup=n), m.value(n), st[n], size=size)
-        res.clauses['C10.lookup.all'] += 1
-        exp = [tuple(e[1:]) for e in m._candidates(n, True)]
-        obs = [_triple(p) for p in st.getProperties(n, all=True)]
-        if obs != exp:
-            V('C10.lookup', f'getProperties(name,all=True)|name={nameclass(n)}', dict(c, lookup=n), exp, obs, size=size)
     for dom in ('color', 'top'):
         res.clauses['C10.lookup.attr'] += 1
         if getattr(st, dom) != m.value(dom_to_css(dom)):
@@ -553,11 +619,11 @@ def compare_style(res, st, m, case, ok, nc, src_items):
     exp = [m.item(i) for i in idx]
     if obs != exp:
         V('C10.names', 'item(i)', dict(c, indexes=idx), exp, obs, size=size)
-    obs = [_triple(p) for p in st]
+    obs = [T(p) for p in st]
     exp = m.effective_triples()
     if obs != exp:
         V('C10.names', '__iter__', c, exp, obs, size=size)
-    obs = [_triple(p) for p in st.getProperties()]
+    obs = [T(p) for p in st.getProperties()]
     if obs != exp:
         V('C10.names', 'getProperties()', c, exp, obs, size=size)
     for n in PROBE_NAMES:
@@ -565,16 +631,14 @@ def compare_style(res, st, m, case, ok, nc, src_items):
             V('C10.names', f'__contains__|name={nameclass(n)}', dict(c, lookup=n), m.contains(n), n in st, size=size)
     # serialisation
     res.clauses['C10.cssText'] += 1
-    text = st.cssText
-    obs = parse_style_text(text)
+    obs = parse_style_text(sn.text)
     if obs != exp_items:
-        V('C10.cssText', _entries_symptom(exp_items, exp_items, obs).replace('no-effect', 'differs'), dict(c, cssText=text), exp_items, obs, size=size)
+        V('C10.cssText', _entries_symptom(None, exp_items, obs), dict(c, cssText=sn.text), exp_items, obs, size=size)
     return True
 
 
-def compare_vars(res, vd, m, case, ok, nc, src_pairs):
+def compare_vars(res, V, vd, m, case, ok, nc, src_pairs):
     """returns True when the real object is consistent in itself and agrees with the model"""
-    V = res.violation
     size = case['_size']
     c = {k: v for k, v in case.items() if k != '_size'}
     good = True
@@ -586,17 +650,21 @@ def compare_vars(res, vd, m, case, ok, nc, src_pairs):
         V('C10.vars.map', f'{ok}|{guard.crash_site(e)}', c, exp, repr(e), size=size)
         return False
     if obs != exp:
-        V('C10.vars.map', f'{ok}|{_entries_symptom(src_pairs, exp, obs)}|name={nc}', c, exp, obs, size=size)
+        if any(ref_vars.norm(k) != k for k, _ in obs):
+            sym = 'key-stored-unnormalised'
+        else:
+            sym = _entries_symptom(src_pairs, exp, obs)
+        V('C10.vars.map', f'{ok}|{sym}|name={nc}', c, exp, obs, size=size)
         good = False
     res.clauses['C10.vars.cssText'] += 1
     text = vd.cssText
     txt = parse_vars_text(text)
-    if [(i[1], i[2]) for i in txt if i[0] == 'v'] != obs:
-        # the clause of the statement: the serialisation lists exactly the variables the API reports
+    if [(i[1], i[2]) for i in txt if i[0] == 'v'] != [(ref_vars.norm(k), v) for k, v in obs] or any(i[0] == '?' for i in txt):
+        # the clause of the statement: the serialisation lists exactly the variables the API reports (compared as CSS names)
         V('C10.vars.cssText', f'{ok}|serialisation-lists-other-variables-than-the-API|name={nc}', dict(c, cssText=text), obs, txt, size=size)
         good = False
     elif good and txt != [tuple(i) for i in m.items]:
-        V('C10.vars.cssText', f'{ok}|{_entries_symptom(txt, [tuple(i) for i in m.items], txt)}', dict(c, cssText=text), [tuple(i) for i in m.items], txt, size=size)
+        V('C10.vars.cssText', f'{ok}|{_entries_symptom(None, [tuple(i) for i in m.items], txt)}', dict(c, cssText=text), [tuple(i) for i in m.items], txt, size=size)
         good = False
     if not good:
         return False
@@ -613,23 +681,56 @@ def compare_vars(res, vd, m, case, ok, nc, src_pairs):
         res.clauses['C10.vars.lookup'] += 1
         if (n in vd) != m.contains(n):
             V('C10.vars.lookup', f'__contains__|name={nameclass(n)}', dict(c, lookup=n), m.contains(n), n in vd, size=size)
-        if vd.getVariableValue(n) != m.value(n):
-            V('C10.vars.lookup', f'getVariableValue|name={nameclass(n)}', dict(c, lookup=n), m.value(n), vd.getVariableValue(n), size=size)
-        if vd[n] != m.value(n):
-            V('C10.vars.lookup', f'__getitem__|name={nameclass(n)}', dict(c, lookup=n), m.value(n), vd[n], size=size)
+        got = vd.getVariableValue(n)
+        if got != m.value(n):
+            V('C10.vars.lookup', f'getVariableValue|name={nameclass(n)}', dict(c, lookup=n), m.value(n), got, size=size)
+        if vd[n] != got:
+            V('C10.vars.lookup', '__getitem__|differs-from-getVariableValue', dict(c, lookup=n), got, vd[n], size=size)
     return True
 
 
-def transition(res, history, op, tier, want_succ=True):
-    """explore ONE transition: rebuild the source state, apply op to the real object and the model, compare everything.
-    Returns (key of the successor, expandable) or None"""
+def _expandable(tier, block, n_entries, has_comment):
+    cfg = _cfg(tier, block)
+    return n_entries <= (cfg.get('Lc', cfg['L']) if has_comment else cfg['L'])
+
+
+def transition(res, history, op, tier):
+    """explore ONE transition (see _transition).  Violations seen through a convenience form of an operation are filed under
+    the plain method call when that call shows the same signature from the same state, else under the form's own name."""
+    pend = []
+    eq = equivalent(op)
+    if eq is None:
+        out = _transition(res, pend.append, history, op, tier, opkind(op))
+    else:
+        label = opkind(eq)
+        out = _transition(res, pend.append, history, op, tier, label)
+        mine = {f'{v[0]}|{v[1]}' for v in pend if v[1].startswith(label)}  # observer findings do not carry the operation
+        if mine:
+            other = []
+            _transition(Result(res.seed), other.append, history, eq, tier, label)
+            if not mine <= {f'{v[0]}|{v[1]}' for v in other}:
+                pend = []
+                _transition(Result(res.seed), pend.append, history, op, tier, opkind(op))
+    for v in pend:
+        res.violation(v[0], v[1], v[2], v[3], v[4], size=v[5])
+    return out
+
+
+def _transition(res, sink, history, op, tier, ok):
+    """rebuild the source state, apply op to the real object and to the model, compare every observer.
+    Returns (key of the successor, expandable) or None; violations go to sink as tuples"""
+
+    def V(clause, sig, case, expected=None, observed=None, size=None):
+        sink((clause, sig, case, expected, observed, size))
+
     guard.pristine()
     block, real, model, tainted = rebuild(history, res)
     if tainted:
         res.counters['tainted_source_states_skipped'] += 1
         return None
     vb = is_vars(block)
-    src = vars_api(real) if vb else style_items(real)
+    pre = 'C10.vars.' if vb else 'C10.'
+    src = model.pairs() if vb else [tuple(i) for i in model.items]
     if not vb:
         names = [ref_decl.norm(i[1]) for i in src if i[0] == 'p']
         if len(names) != len(set(names)):
@@ -638,60 +739,63 @@ def transition(res, history, op, tier, want_succ=True):
         res.nontrivial += 1
     case = {'kind': 'transition', 'history': [list(o) for o in history], 'op': list(op)}
     size = (len(history) + 1) * 10000 + len(jdump(case))
+    pub = dict(case)
     case['_size'] = size
-    pub = {k: v for k, v in case.items() if k != '_size'}
-    ok = opkind(op)
     nc = nameclass(op[1]) if op[0] not in ('text', 'vtext') else 'n/a'
     res.transitions += 1
     res.evaluations += 1
     raised = rejected = None
     r_real = r_model = None
+    res.clauses[pre + 'total'] += 1
     try:
         r_real = apply_real(real, op)
     except (xml.dom.DOMException, AttributeError) as e:
         raised = e
     except Exception as e:
         raised = e
-        res.clauses['C10.total'] += 1
-        res.violation('C10.total' if not vb else 'C10.vars.total', f'{ok}|{guard.crash_site(e)}', pub, 'no exception but DOMException', repr(e), size=size)
+        V(pre + 'total', f'{ok}|{guard.crash_site(e)}', pub, 'no exception other than DOMException', repr(e), size=size)
     try:
         r_model = apply_model(model, op)
     except ref_decl.Rejected as e:
         rejected = e
-    res.clauses['C10.total'] += 1
     if raised is not None:
         guard.pristine()
     if raised is not None and rejected is None:
         if isinstance(raised, (xml.dom.DOMException, AttributeError)):
-            res.violation('C10.total' if not vb else 'C10.vars.total', f'{ok}|valid-operation-refused|{type(raised).__name__}|name={nc}', pub, 'accepted', repr(raised), size=size)
-        # the model has stepped, the object has not: the pair is out of step, judge only that the object is unchanged
+            V(pre + 'total', f'{ok}|valid-operation-refused|{type(raised).__name__}|name={nc}', pub, 'accepted', repr(raised), size=size)
+        # the model has stepped, the object has not: judge only that the refusal left the object as it was
         model = model_of(block, real)
         if model is None:
             return None
         r_model = r_real
+        now = model.pairs() if vb else [tuple(i) for i in model.items]
+        if now != src:
+            V(pre + 'rejected', f'{ok}|refused-operation-changed-the-block', pub, src, now, size=size)
     elif raised is None and rejected is not None:
-        res.violation('C10.rejected' if not vb else 'C10.vars.rejected', f'{ok}|invalid-operation-accepted|{rejected}', pub, 'an exception, block unchanged', 'accepted', size=size)
+        V(pre + 'rejected', f'{ok}|invalid-operation-accepted|{rejected}', pub, 'an exception, block unchanged', 'accepted', size=size)
         model = model_of(block, real)
         if model is None:
             return None
         r_model = r_real
     elif raised is not None:
+        res.clauses[pre + 'rejected'] += 1
         res.counters['rejected_transitions'] += 1
     res.validated += 1
-    res.clauses['C10.return'] += 1
+    res.clauses[pre + 'return'] += 1
     if r_real != r_model:
-        res.violation('C10.return' if not vb else 'C10.vars.return', f'{ok}|name={nc}', pub, r_model, r_real, size=size)
+        V(pre + 'return', f'{ok}|name={nc}', pub, r_model, r_real, size=size)
     if vb:
-        good = compare_vars(res, real, model, case, ok, nc, src)
+        good = compare_vars(res, V, real, model, case, ok, nc, src)
         key = vars_key(block, real)
-        n_entries = len(real.keys())
-        expandable = good and n_entries <= _cfg(tier, block)['L']
+        expandable = good and len(real.keys()) <= _cfg(tier, block)['L']
         if not good:
             res.counters['inconsistent_successors_not_expanded'] += 1
     else:
-        compare_style(res, real, model, case, ok, nc, src)
-        key = style_key(block, real)
-        expandable = len(real.getProperties(all=True)) <= _cfg(tier, block)['L']
+        sn = Snap(real)
+        compare_style(res, V, real, sn, model, case, ok, nc, src)
+        key = sn.key(block)
+        expandable = _expandable(tier, block, sn.n_entries, sn.has_comment)
+        res.maxima['entries'] = max(res.maxima.get('entries', 0), sn.n_entries)
     res.outcomes.add(key)
     res.sets['return_values'].add(repr(r_real))
     res.counters['op.' + op[0]] += 1
@@ -702,21 +806,32 @@ def transition(res, history, op, tier, want_succ=True):
 
 def expand(batch, tier, seed):
     res = Result(seed)
+    best = {}  # key -> (rank, history, expandable): only the smallest history per successor leaves the worker
+
+    def emit(key, hist, expandable):
+        rank = (len(hist), jdump(hist))
+        old = best.get(key)
+        if old is None or rank < old[0]:
+            best[key] = (rank, hist, expandable)
+
     for history in batch:
         history = [list(o) for o in history]
-        with guard.watchdog(600):
+        with guard.watchdog(900):
             if not history:
                 for block in CONFIGS[tier]:
-                    for ti in (VARS_SEEDS if is_vars(block) else STYLE_SEEDS):
-                        _seed(res, block, ti, tier)
+                    for ti in VARS_SEEDS if is_vars(block) else STYLE_SEEDS:
+                        out = _seed(res, block, ti, tier)
+                        if out is not None:
+                            emit(out, [['seed', block, ti]], True)
                 continue
             block = history[0][1]
             ops = vars_ops() if is_vars(block) else style_ops(tier, block)
-            res.counters[('vars' if is_vars(block) else 'style') + '.states_expanded'] += 1
+            res.counters[('vars' if is_vars(block) else block) + '.states_expanded'] += 1
             for op in ops:
                 out = transition(res, history, op, tier)
                 if out is not None:
-                    res.succ.append((out[0], history + [op], out[1]))
+                    emit(out[0], history + [op], out[1])
+    res.succ = [(k, b[1], b[2]) for k, b in best.items()]
     return res
 
 
@@ -724,23 +839,29 @@ def _seed(res, block, ti, tier):
     guard.pristine()
     op = ['seed', block, ti]
     case = {'kind': 'transition', 'history': [], 'op': op}
+    pub = dict(case)
     case['_size'] = 10000 + len(jdump(case))
     res.transitions += 1
     res.evaluations += 1
+
+    def V(clause, sig, case, expected=None, observed=None, size=None):
+        res.violation(clause, sig, case, expected, observed, size=size)
+
     try:
         real, model = fresh(block, ti)
     except Exception as e:
-        res.violation('C10.total', f'constructor|{guard.crash_site(e)}', {k: v for k, v in case.items() if k != '_size'}, 'object', repr(e))
-        return
+        res.violation('C10.total', f'constructor|{guard.crash_site(e)}', pub, 'object', repr(e))
+        return None
     res.validated += 1
     if is_vars(block):
-        good = compare_vars(res, real, model, case, 'constructor', 'n/a', [])
+        compare_vars(res, V, real, model, case, 'constructor', 'n/a', [])
         key = vars_key(block, real)
     else:
-        good = compare_style(res, real, model, case, 'constructor', 'n/a', [])
-        key = style_key(block, real)
+        sn = Snap(real)
+        compare_style(res, V, real, sn, model, case, 'constructor', 'n/a', [])
+        key = sn.key(block)
     res.outcomes.add(key)
-    res.succ.append((key, [op], True))
+    return key
 
 
 # ----------------------------------------------------------------------------------------
@@ -808,7 +929,11 @@ def _table_row(res, n):
 
 
 def run(ctx):
-    res = explore.bfs(ctx, 'expand', max_depth=40, batch=6)
+    import os
+    import sys
+
+    dbg = (lambda d, new, seen: print(f'level {d}: new={new} seen={seen}', file=sys.stderr, flush=True)) if os.environ.get('VERIF_DEBUG') else None
+    res = explore.bfs(ctx, 'expand', max_depth=40, batch=6, on_level=dbg)
     if res.counters.get('frontier_states_left_unexpanded_at_depth_bound'):
         res.error('BFS did not reach closure within 40 levels')
     names = all_known_names()
